@@ -12,7 +12,7 @@ ID = 'C10'
 RULE = ('Cases = generated scene (layered, split_candidate, merge_chain, exact_counts, degenerate, ref_window) x '
         'parameters (MSA placed among the hits so that cropping selects rows, look-back < 100, exclusion, separation) x '
         'a frame variant: index relabelled (shuffled labels, offset, float, string, non-unique per-instrument labels as '
-        'pd.concat gives, all labels equal), columns permuted, 0-3 extra columns (constant, row-unique, named like the '
+        'pd.concat gives, all labels equal; index named like a column), columns permuted, 0-3 extra columns (constant, row-unique, named like the '
         'internal slice_id / group_id / layer_id, or holding unhashable objects: lists, arrays, dicts), dtype variants (ceilo object / str / StringDtype; dt and height as '
         'int64 or float32 only when every value is exactly representable; type as int8 / Int64 / integer-valued float). '
         'Metamorphic oracle, bit-exact: the three tables, the three messages, the flag and the per-hit assignments '
@@ -41,6 +41,7 @@ def strategy_(draw):
     var = {'index': draw(st.sampled_from(INDEX_KINDS))}
     if var['index'] == 'shuffled':
         var['perm'] = list(draw(S.permutation(range(n))))
+    var['index_name'] = draw(st.sampled_from([None, None, None, 'dt', 'ceilo', 'height', 'idx']))
     var['cols'] = list(draw(S.permutation(['ceilo', 'dt', 'height', 'type'])))
     var['extra'] = draw(st.lists(st.sampled_from(['const', 'unique', 'slice_id', 'group_id', 'layer_id', 'index',
                                                   'height_base', 'lists', 'arrays', 'dicts']), max_size=3, unique=True))
@@ -133,6 +134,9 @@ def make_variant(rows, var):
             ik = 'range-like'
     if ik not in ('range', 'range-like'):
         kinds.append('index:' + ik)
+    if var.get('index_name'):
+        df.index = df.index.set_names(var['index_name'])
+        kinds.append('index:named-' + var['index_name'])
     return df, sorted(set(kinds))
 
 
